@@ -20,6 +20,7 @@ from vf.hyp import drive, st
 from vf.runner import Collector
 
 ID = "C20"
+EARLY_ATTRIBUTION = True  # region predicates are cheap scans of the stored case
 LEVEL = "fault_enumeration"
 RULE = (
     "Hypothesis draws a model description (0-7 initializers over 27 element types x size classes {zero-size, scalar, "
